@@ -125,7 +125,9 @@ class ORSet:
         """Serialize to a plain dict."""
         entries = {}
         for element, tags in self._entries.items():
-            entries[str(element)] = [list(tag) for tag in sorted(tags)]
+            # Key by the element itself: str(element) would turn 1 into "1" for the
+            # replica rebuilt by from_dict() (and merge 1 with "1").
+            entries[element] = [list(tag) for tag in sorted(tags)]
         return {
             "type": "ORSet",
             "node_id": self._node_id,
